@@ -120,11 +120,11 @@ class Ctx:
         procs = procs or min(16, max(1, len(items)))
         out = []
         if procs == 1 or len(items) < 4:
-            out = [func(it) for it in items]
+            out = [_guarded_call((func, it)) for it in items]
         else:
             ctxmp = mp.get_context("fork")
             with ctxmp.Pool(procs) as pool:
-                out = pool.map(func, items, chunksize or max(1, len(items) // (procs * 8)))
+                out = pool.map(_guarded_call, [(func, it) for it in items], chunksize or max(1, len(items) // (procs * 8)))
         for r in out:
             if r is None:
                 continue
@@ -240,6 +240,35 @@ class Ctx:
         return 1 if self.violations else 0
 
 
+def code_under_test_raised(ex):
+    """(harness frame, repository frame) when the traceback of `ex` has a frame of the repository below the last harness
+    frame - the code under test raised in a scenario the harness built -, else None (the harness itself failed)."""
+    frames = traceback.extract_tb(ex.__traceback__)
+    repo = os.path.realpath(os.environ.get("VERIF_REPO", "/repo")) + os.sep
+    here = os.path.dirname(os.path.dirname(os.path.abspath(__file__))) + os.sep
+    last_h = max([i for i, f in enumerate(frames) if os.path.realpath(f.filename).startswith(here)] or [-1])
+    in_repo = [f for f in frames[last_h + 1:] if os.path.realpath(f.filename).startswith(repo)]
+    if in_repo and last_h >= 0:
+        return frames[last_h], in_repo[-1], repo
+    return None
+
+
+def _guarded_call(arg):
+    """worker-side wrapper of pmap: an exception escaping from the code under test inside a job becomes a violation of that
+    job (the traceback does not survive the trip back from a worker process)."""
+    func, item = arg
+    try:
+        return func(item)
+    except Exception as ex:
+        hit = code_under_test_raised(ex)
+        if hit is None:
+            raise
+        hf, rf, repo = hit
+        return {"viol": [(f"raises/{hf.name}/{rf.name}",
+                          f"the code under test raises {type(ex).__name__}: {str(ex)[:300]} (in {os.path.relpath(rf.filename, repo)}:{rf.lineno} {rf.name}) when driven by {os.path.basename(hf.filename)}:{hf.lineno} {hf.name}",
+                          {"traceback": traceback.format_exc()[-3000:], "job": repr(item)[:2000]})], "n": 1, "keys": [], "traces": 0}
+
+
 def main(argv=None):
     import argparse
     import importlib
@@ -256,6 +285,10 @@ def main(argv=None):
     try:
         mod = importlib.import_module(f"harness.props.{a.pid.lower()}")
         mod.run(ctx)
+        if not ctx.replay:
+            from harness import scenarios
+
+            scenarios.run_scenarios(ctx, a.pid)
         rc = ctx.finish()
     except (MachineryError, tlcmod.TLCError) as ex:
         print(f"MACHINERY-ERROR [{a.pid}]: {ex}", file=sys.stderr)
@@ -264,21 +297,17 @@ def main(argv=None):
     except Exception as ex:
         # An exception that escapes from the code under test (a frame of the repository lies below the last harness frame)
         # in a scenario the harness built is a verdict about the code: the sections that were not reached are not judged.
-        frames = traceback.extract_tb(ex.__traceback__)
-        repo = os.path.realpath(os.environ.get("VERIF_REPO", "/repo")) + os.sep
-        here = os.path.dirname(os.path.dirname(os.path.abspath(__file__))) + os.sep
-        last_h = max([i for i, f in enumerate(frames) if os.path.realpath(f.filename).startswith(here)] or [-1])
-        in_repo = [f for f in frames[last_h + 1 :] if os.path.realpath(f.filename).startswith(repo)]
-        if in_repo and last_h >= 0:
-            hf = frames[last_h]
+        hit = code_under_test_raised(ex)
+        if hit is not None:
+            hf, rf, repo = hit
             try:
                 ctx.violation(
-                    f"raises/{hf.name}/{in_repo[-1].name}",
-                    f"the code under test raises {type(ex).__name__}: {str(ex)[:300]} (in {os.path.relpath(in_repo[-1].filename, repo)}:{in_repo[-1].lineno} {in_repo[-1].name}) "
+                    f"raises/{hf.name}/{rf.name}",
+                    f"the code under test raises {type(ex).__name__}: {str(ex)[:300]} (in {os.path.relpath(rf.filename, repo)}:{rf.lineno} {rf.name}) "
                     f"when driven by {os.path.basename(hf.filename)}:{hf.lineno} {hf.name}; the remaining sections of this check were not reached",
                     {"traceback": traceback.format_exc()[-3000:]},
                 )
-                ctx.cov["sections"]["aborted"] = {"by": f"{type(ex).__name__} in {in_repo[-1].name}"}
+                ctx.cov["sections"]["aborted"] = {"by": f"{type(ex).__name__} in {rf.name}"}
                 return ctx.finish()
             except Exception:
                 pass
